@@ -677,6 +677,32 @@ func (t *fnTrans) missingSites() {
 	if fc == nil {
 		return
 	}
+	// a clause about loop N needs a loop N
+	haveLoop := map[int]bool{}
+	for _, li := range t.loops {
+		haveLoop[li.ord] = true
+	}
+	loopClause := func(n int, sl specLine, what string) {
+		if haveLoop[n] {
+			return
+		}
+		o := t.oblige("contract", fmt.Sprintf("%s:%d:missing-loop", sl.file, sl.line), token.NoPos, "false", fmt.Sprintf("the code no longer has loop %d this %s clause is attached to [%s]", n, what, sl.text))
+		o.Trivial = false
+		o.Reach = "true"
+	}
+	for n, sls := range fc.loopInv {
+		for _, sl := range sls {
+			loopClause(n, sl, "invariant")
+		}
+	}
+	for n, sls := range fc.loopEnsures {
+		for _, sl := range sls {
+			loopClause(n, sl, "ensures")
+		}
+	}
+	for n := range fc.loopComplete {
+		loopClause(n, specLine{file: fc.file, line: fc.line, text: fmt.Sprintf("loop %d complete", n)}, "complete")
+	}
 	have := map[string]bool{}
 	for _, s := range t.sites {
 		have[s] = true
